@@ -430,3 +430,67 @@ def specs(prop='C11'):
                  run_order_lemmas, min_obligations=3,
                  notes='pruning lemmas under the tree-order precondition the code documents'),
     ]
+
+
+# ---------------------------------------------------------------------------------------------------------------------
+# _offset_lns: per-node body (column shift of whole lines, used by indent / dedent)
+
+def specs_offset_lns(prop):
+    import z3
+    from pyvc.contract import Fragment
+    from pyvc.interp import Interp, IFunc, SObj, IntAttr, OptIntAttr, ABSENT
+    from pyvc import sym
+    from pyvc.sym import _wrap_bool, _wrap_int
+
+    IN = z3.Function('line_in_lns', z3.IntSort(), z3.BoolSort())
+    DV = z3.Function('line_delta', z3.IntSort(), z3.IntSort())
+
+    class LineSet:
+        def _sym_contains(self, k):
+            return _wrap_bool(IN(sym._z(k)))
+
+        def get(self, k, default=None):
+            if truth(_wrap_bool(IN(sym._z(k)))):
+                return _wrap_int(DV(sym._z(k)))
+            return default
+
+    def run(ctx, case, loc, pre, label):
+        touched = []
+        f = SObj('f', {})
+        f._set('_touch', lambda: touched.append('node'), count=False)
+        a = SObj('a', dict(lineno=IntAttr(), col_offset=IntAttr(), end_lineno=IntAttr(), end_col_offset=OptIntAttr(), f=f))
+        has = a._get('end_col_offset') is not ABSENT
+        l0, c0, el0 = a._get('lineno'), a._get('col_offset'), a._get('end_lineno')
+        ec0 = a._get('end_col_offset') if has else None
+        self_ = SObj('self', {}, a=SObj('root_a', {}))
+        self_._set('_touchall', lambda *x: touched.append(('touchall',) + x), count=False)
+        lns = LineSet()
+        if case['mode'] == 'single':
+            d = ctx.int('dcol_offset')
+        else:
+            d = None
+        it = Interp({'walk': lambda x: [a]})
+        it.call(IFunc(it, loc.node, None, '_offset_lns'), (self_, lns, d))
+        ctx.notes['outcome'] = 'return'
+
+        def delta(line1):
+            k = line1 - 1
+            inl = _wrap_bool(IN(sym._z(k)))
+            if d is not None:
+                return ite(inl, d, 0)
+            return ite(inl, _wrap_int(DV(sym._z(k))), 0)
+        if d is not None and truth(eq(d, 0)):
+            ctx.prove(f'{pre}.zero_delta_is_noop[{label}]', not a._written and not touched)
+            return
+        if has:
+            ctx.prove(f'{pre}.node.start[{label}]', eq(a._get('col_offset'), c0 + delta(l0)))
+            ctx.prove(f'{pre}.node.end[{label}]', eq(a._get('end_col_offset'), ec0 + delta(el0)))
+            ctx.prove(f'{pre}.node.lines_untouched[{label}]', and_(eq(a._get('lineno'), l0), eq(a._get('end_lineno'), el0)))
+        else:
+            ctx.prove(f'{pre}.noloc.untouched[{label}]', not a._written)
+        ctx.prove(f'{pre}.flush.node[{label}]', 'node' in touched, info='every walked node is touched (cache flush)')
+        ctx.prove(f'{pre}.flush.parents[{label}]', ('touchall', True, False, False) in touched)
+
+    return [Fragment('fst_core:_offset_lns', prop, 'offset_lns', [dict(mode='single'), dict(mode='per_line')], run,
+                     min_obligations=2, notes='per-node body (walk replaced by a one-node iteration); line set / per-line '
+                                              'delta map are uninterpreted')]
